@@ -31,13 +31,14 @@ type Call struct {
 
 type C14Case struct {
 	SegSize  int    `json:"seg"`
-	PreN     int    `json:"preN"`     // entries appended before (one per batch)
-	PreDel   int    `json:"preDel"`   // head entries deleted before
-	Calls    []Call `json:"calls"`    // concurrent calls; Close is added as the last worker
-	Choices  []int  `json:"choices"`  // schedule
-	Target   int    `json:"target"`   // worker whose window Close should fall into (bias)
-	HoldAt   int    `json:"holdAt"`   // how many points the target passes before Close is driven
-	CloseErr bool   `json:"closeErr"` // the MetaStore's Close reports an error (it is closed all the same)
+	PreN     int    `json:"preN"`            // entries appended before (one per batch)
+	PreDel   int    `json:"preDel"`          // head entries deleted before
+	Calls    []Call `json:"calls"`           // concurrent calls; Close is added as the last worker
+	Choices  []int  `json:"choices"`         // schedule
+	Target   int    `json:"target"`          // worker whose window Close should fall into (bias)
+	HoldAt   int    `json:"holdAt"`          // how many points the target passes before Close is driven
+	CloseErr bool   `json:"closeErr"`        // the MetaStore's Close reports an error (it is closed all the same)
+	Start    uint64 `json:"start,omitempty"` // index of the first entry (other than 1: the empty first segment is re-based)
 }
 
 var readKinds = []string{"getlog", "first", "last", "get"}
@@ -70,6 +71,7 @@ func genC14(t *rapid.T) C14Case {
 	c.Target = rapid.IntRange(0, len(c.Calls)-1).Draw(t, "target")
 	c.HoldAt = rapid.IntRange(1, 14).Draw(t, "holdAt")
 	c.CloseErr = rapid.IntRange(0, 4).Draw(t, "closeErr") == 0
+	c.Start = rapid.SampledFrom([]uint64{1, 1, 1, 1000}).Draw(t, "start")
 	return c
 }
 
@@ -106,8 +108,12 @@ func runC14(c C14Case) (res common.Result) {
 		return
 	}
 	m := refmodel.NewLogModel()
+	base := c.Start
+	if base == 0 {
+		base = 1
+	}
 	for i := 0; i < c.PreN; i++ {
-		l := kit.EntrySpec{DataLen: 40, Seed: uint8(i)}.Make(uint64(i+1), 0)
+		l := kit.EntrySpec{DataLen: 40, Seed: uint8(i)}.Make(base+uint64(i), 0)
 		if err := w.StoreLogs([]*raft.Log{l}); err != nil {
 			res.Fail = common.Failf("harness", "prefix append: %v", err)
 			return
@@ -116,11 +122,11 @@ func runC14(c C14Case) (res common.Result) {
 		kit.Barrier(w)
 	}
 	if c.PreDel > 0 && c.PreDel < c.PreN {
-		if err := w.DeleteRange(1, uint64(c.PreDel)); err != nil {
+		if err := w.DeleteRange(base, base+uint64(c.PreDel)-1); err != nil {
 			res.Fail = common.Failf("harness", "prefix delete: %v", err)
 			return
 		}
-		m.Delete(1, uint64(c.PreDel))
+		m.Delete(base, base+uint64(c.PreDel)-1)
 	}
 	w.Set([]byte("k"), []byte("v0"))
 	v0 := m.Clone()
